@@ -125,7 +125,7 @@ theorem register_stores_exactly {c : Ctx} {e : Engine} {ot : Nat} {t : Option Te
       (∀ l, ro.alg.isSome = true → ro.len = some l → l ≠ 0 → o.alg = ro.alg ∧ o.len = ro.len) := by
   unfold opRegister at h
   inv h
-  obtain ⟨_, dd, hd, o1, hset, rfl, _⟩ := h
+  obtain ⟨_, dd, hd, _, _, o1, hset, rfl, _⟩ := h
   have hc := setAttrs_core hset
   refine ⟨finalize c e o1, rfl, ?_, ?_, ?_, ?_, ?_⟩
   · show o1.otype = _; rw [hc.otype]; rfl
